@@ -230,7 +230,17 @@ def decide(prop, tier, seed, jobs, t0):
                "inputs": o["model"], "path": o["path"], "solver": o["solver"], "detail": o["detail"],
                "exception": o["id"].split("/safety/")[-1].split("@")[0] if kind == "safety" else None}
         path = write_replay(prop, doc)
-        if o["kind"] in ("invariant", "step", "frame", "termination", "call-requires", "spec-assert"):
+        if "/step:" in o["id"] and o["model"]:
+            doc["kind"] = "step"
+            with open(os.path.join(VERIF, path), "w") as fh:
+                json.dump(doc, fh, indent=1, sort_keys=True, default=str)
+            code, res = replay_file(path)
+            if code == 0:
+                res.setdefault("note", "loop/call-site obligation: the solver's state did not replay")
+                if not res["note"].startswith("loop/call-site"):
+                    res["note"] = "loop/call-site obligation: " + res["note"]
+        elif o["kind"] in ("invariant", "step", "frame", "termination", "call-requires", "spec-assert") or \
+                "/step:" in o["id"] or "/invariant" in o["id"]:
             # obligations about an arbitrary loop iteration / call site: the solver's state is not an
             # input of a public function, so there is nothing to replay natively
             code, res = 0, {"note": "loop/call-site obligation: no native replay", "solver_state": o["model"]}
